@@ -5,7 +5,13 @@ goals) plus
     "type_defaults": [[type recipe, value expr]]      per-type initial defaults given to the ContingentProblem constructor
     "sensing": [{"name","params","pre":[expr],"observed":[fluent expr]}]
     "constraints": [["oneof"|"or", [lit...]] | ["unknown", fluent expr]]     lit = fluent expr | ["not", fluent expr]
+
+Stratum "same-fluent constraint pair" (profile key same_fluent_pair): a second oneof/or constraint over exactly the ground
+fluents of an earlier one that differs from it in kind and/or polarity (oneof(a,b) + or(not a,b); or(a,b) + or(not a,not b);
+oneof(not a,b) + or(a,b); ...). Most of them are filtered so that the whole constraint set stays satisfiable and neither
+constraint of the pair is implied by the others; the rest is unfiltered (may be redundant or jointly unsatisfiable).
 """
+from itertools import product
 from collections import OrderedDict
 
 from vk.gen.problem import G as _PG
@@ -29,7 +35,64 @@ PROFILE = dict(
 )
 
 
+def _atom(l):
+    return l[1] if l[0] == "not" else l
+
+
+def _sat(c, s):
+    if c[0] == "unknown":
+        return True
+    vals = [(not s[str(_atom(l))]) if l[0] == "not" else s[str(l)] for l in c[1]]
+    return sum(vals) == 1 if c[0] == "oneof" else any(vals)
+
+
+def n_models(constraints, atoms):
+    """number of assignments of `atoms` (list of str(fluent expr)) satisfying every constraint recipe."""
+    n = 0
+    for combo in product([False, True], repeat=len(atoms)):
+        s = dict(zip(atoms, combo))
+        if all(_sat(c, s) for c in constraints):
+            n += 1
+    return n
+
+
 class G(_PG):
+    def same_fluent_twin(self, constraints):
+        """Appends (at a random position) a second constraint over exactly the ground fluents of an existing oneof/or
+        constraint. Draws from self.rng only; called last so that the rest of the recipe does not depend on it."""
+        r = self.rng
+        if r.random() >= self.pf.get("same_fluent_pair", 0.4):
+            return
+        bases = [c for c in constraints if c[0] != "unknown" and len(c[1]) >= 2]
+        if not bases:
+            return
+        base = r.choice(bases)
+        strict = r.random() < 0.85
+        atoms = sorted({str(_atom(l)) for c in constraints if c[0] != "unknown" for l in c[1]})
+        if len(atoms) > 10:
+            return
+        for _ in range(16):
+            k = r.choice(["oneof", "or"])
+            lits = [(["not", _atom(l)] if r.random() < 0.5 else _atom(l)) for l in base[1]]
+            r.shuffle(lits)
+            if k == base[0] and sorted(map(str, lits)) == sorted(map(str, base[1])):
+                continue  # the same constraint again
+            cand = [k, lits]
+            if strict:
+                allc = constraints + [cand]
+                n = n_models(allc, atoms)
+                if n == 0:
+                    continue
+                if n_models(constraints, atoms) <= n:
+                    continue  # the new one is implied by the others
+                if n_models([c for c in allc if c is not base], atoms) <= n:
+                    continue  # the old one is implied by the others
+            constraints.insert(r.randint(0, len(constraints)), cand)
+            self.feat.add("same-fluent-constraint-pair" + (":each-needed" if strict else ":unfiltered"))
+            if any(l[0] == "not" for l in lits):
+                self.feat.add("negated-literal")
+            return
+
     def gen_contingent(self):
         r = self.rng
         # ---- types / objects ---------------------------------------------------------------------------------------
@@ -137,6 +200,7 @@ class G(_PG):
             if obs:
                 sensing.append({"name": f"sense{i}", "params": params, "pre": pre, "observed": obs})
         goals = [self.boolean(1, {})]
+        self.same_fluent_twin(constraints)  # same ground fluents as an existing constraint: `hidden` is unchanged
         return {
             "name": "cont",
             "types": self.types,
